@@ -18,7 +18,7 @@ var (
 	quotedVals = []string{"quoted", "a b", "a,b", "q=0.1", "x;q=0", ", */*;q=1", "a\"b", "a\\", "", "text/html", ",", ";q=0", "q=", "a/b;q=1,c/d", "\"", ";", "\t"}
 	quoteAlpha = []byte{'a', ',', ';', '=', 'q', '"', '\\', ' ', '/', '*', '0', '.', '1'}
 
-	owsVocab = []string{"", "", "", " ", " ", "  ", "\t", " \t "}
+	owsVocab = []string{"", "", "", " ", " ", "  ", "\t", " \t ", "\r\n ", "\n", "\r\n\t"} // the last three: a folded header line as a hand-built http.Header or a lenient front end delivers it (the parser counts CR and LF as white space)
 
 	offerParams = []string{"; charset=utf-8", ";version=2", ";q=0.1", "; a=\"b,c\"", ";charset=utf-8;v=1"}
 )
@@ -73,6 +73,9 @@ func genParams(t *rapid.T, names []string, max int, flags bool) []Param {
 var gridCommon = []int{0, 0, 1, 100, 300, 500, 500, 501, 700, 999, 1000, 1000}
 
 func genMilli(t *rapid.T) int {
+	if rapid.IntRange(0, 11).Draw(t, "qaboveone") == 0 {
+		return rapid.SampledFrom([]int{1001, 1100, 1500, 1500, 1999}).Draw(t, "qabove")
+	}
 	if rapid.IntRange(0, 3).Draw(t, "qgrid") == 0 {
 		return rapid.IntRange(0, 1000).Draw(t, "qany")
 	}
@@ -268,6 +271,9 @@ func GenQOrder(t *rapid.T) Case {
 	o1 := t1 + "/" + rapid.SampledFrom(subVocab).Draw(t, "s1")
 	o2 := t2 + "/" + rapid.SampledFrom(subVocab).Draw(t, "s2")
 	m2 := rapid.IntRange(1, 1000).Draw(t, "m2")
+	if rapid.IntRange(0, 5).Draw(t, "m2aboveone") == 0 {
+		m2 = rapid.IntRange(1001, 1999).Draw(t, "m2above")
+	}
 	m1 := rapid.IntRange(0, m2-1).Draw(t, "m1")
 	if rapid.IntRange(0, 2).Draw(t, "adjacent") == 0 {
 		m1 = m2 - 1
